@@ -622,8 +622,82 @@ def uncovered(body, st, problems):
     return []
 
 
+EXC_USED = set()
+
+
+def premise_token_map_sorted(facts, res, R):
+    """The exception for CTTokenMapBuilder::new rests on a premise about ANOTHER function: the Vec it fills in hash order is a
+    private field that CTTokenMapBuilder::build reads only to sort it.  Checked here: every read of that field in build flows
+    (through clone / iter / collect) into a Vec that is sorted before any other use; a second read that walks the field as it
+    is puts hash order into the generated module."""
+    bs = [b for b in facts.lib_bodies(['lrlex']) if b.name == 'build' and 'CTTokenMapBuilder' in (b.impl_of or '') and b.kind != 'closure']
+    if len(bs) != 1:
+        return res.lost(R, 'CTTokenMapBuilder::build not found (premise of the listed exception for CTTokenMapBuilder::new)')
+    b = bs[0]
+    reads = []
+    for bb in sorted(b.reachable()):
+        for st in b.blocks[bb]['stmts']:
+            if st['k'] != 'assign':
+                continue
+            pls = [st['rv'][k] for k in ('ref',) if k in st['rv']] + [op_place(o) for o in rv_operands(st['rv']) if op_place(o) is not None]
+            for pl in pls:
+                if pl['l'] == 1 and any(isinstance(q, dict) and q.get('name') == 'token_map' for q in pl['p']):
+                    reads.append((bb, st['lhs']['l']))
+    def sorted_first(v, def_bb):
+        # the keys are the names of ONE map (pairwise distinct): any sort by name is canonical
+        uses = [(x, t) for x, t in b.calls() if x != def_bb and any(op_local(a) is not None and b.root(op_local(a))[0] == v for a in t['args'])]
+        sorts = [x for x, t in uses if (cname(t) or '').startswith('sort')]
+        return bool(sorts) and all((cname(t) or '').startswith('sort') or cname(t) in ('deref_mut', 'deref', 'as_mut_slice', 'drop') or any(b.dominates(s_, x) and s_ != x for s_ in sorts)
+                                   for x, t in uses)
+    key = 'premise:CTTokenMapBuilder::build/token_map'
+    if not any(x.endswith('CTTokenMapBuilder::new') for x in EXC_USED):
+        return res.ok(R, key, loc_of(b), 'the listed exception for CTTokenMapBuilder::new is not in use on this tree (its sources were classified on their own): no premise to check')
+    if not reads:
+        return res.lost(R, 'CTTokenMapBuilder::build does not read the token_map field (premise of a listed exception)')
+    bad = []
+    for bb, l in reads:
+        # Vec -> slice -> Iter are views of the same list in the same order: keep following
+        consumers, todo, seen_l = [], [l], set()
+        while todo:
+            x = todo.pop()
+            if x in seen_l:
+                continue
+            seen_l.add(x)
+            for cb, ct, ai in flow(b, x)[2]:
+                if cname(ct) in ('deref', 'as_slice', 'iter', 'borrow', 'as_ref') and ct.get('dest') is not None:
+                    todo.append(ct['dest']['l'])
+                else:
+                    consumers.append((cb, ct, ai))
+        okr = False
+        for cb, ct, ai in consumers:
+            nm = cname(ct)
+            if nm in ('clone', 'to_vec', 'to_owned', 'collect', 'from_iter'):
+                v = ct['dest']['l']
+                if sorted_first(v, cb):
+                    okr = True
+                else:
+                    # the copy may be moved into a named local first
+                    for x in [x for x, ds in b.defs().items() if any(d[1] == 'stmt' and 'use' in d[2] and op_local(d[2]['use']) == v for d in ds)]:
+                        if sorted_first(x, cb):
+                            okr = True
+                    if not okr:
+                        bad.append('line %s: a copy of the token list is used without being sorted first' % ct.get('line'))
+            elif nm in ('len', 'is_empty', 'drop', 'drop_in_place'):
+                continue
+            else:
+                bad.append('line %s: the token list is handed to `%s` in the order it was collected in (hash order)' % (ct.get('line'), nm))
+        if not okr and not bad:
+            bad.append('line %s: the token list is read without being sorted' % b.blocks[bb]['term'].get('line'))
+    if bad:
+        res.bad(R, key, loc_of(b, reads[0][0]), '; '.join(sorted(set(bad))[:2]) + ': the list was collected from a RandomState HashMap by CTTokenMapBuilder::new, so the generated '
+                'module differs from process to process', {'function': b.path})
+    else:
+        res.ok(R, key, loc_of(b, reads[0][0]), 'every read of the token list in build goes through a copy that is sorted by name before it is used (%d reads)' % len(reads))
+
+
 def r151(facts, res):
     R = 'R15.1'
+    EXC_USED.clear()
     n = 0
     nauto = nexc = 0
     per_fn = {}
@@ -647,6 +721,7 @@ def r151(facts, res):
                 reason = exception_for(body, st, problems)
                 if reason:
                     nexc += 1
+                    EXC_USED.add(strip_generics(body.root_parent or body.path))
                     res.ok(R, key, loc_of(body, bb), 'listed exception: ' + reason)
                 else:
                     unc = uncovered(body, st, problems)
@@ -699,6 +774,7 @@ def selfcontrol():
 
 def run(facts, res):
     r151(facts, res)
+    premise_token_map_sorted(facts, res, 'R15.1')
 
 
 def run_thorough(facts, res):
